@@ -1,4 +1,5 @@
 import RactorModel.Lemmas.Spawn
+import RactorModel.Extracted
 
 /-!
 # C08 — a failed or cancelled spawn leaves nothing behind
@@ -99,6 +100,19 @@ theorem clash_changes_nothing (s : S) (n : Nat) (sup : Option Nat) (b : Nat)
   intro c y hy
   rw [List.getElem?_append_left (List.getElem?_eq_some_iff.mp hy).1]; exact hy
 
+/-! ### Source guards (E-SRC): what the model assumes about the text of `actor.rs`,
+re-extracted from the repository on every run -/
+
+/-- the lifecycle guard is silent until `mark_running`: a failed start notifies nobody -/
+theorem src_guard_silent_before_running : Extracted.guardInitialNotifyOnCancel = some false := by decide
+/-- `start` runs pre_start, THEN links, THEN marks running, THEN spawns the loop task … -/
+theorem src_start_order : Extracted.sendStartOrder = true := by decide
+/-- … and pre_start (under `run_with_signal`) is its only await point before the loop task exists -/
+theorem src_start_single_await : Extracted.sendStartAwaitPoints = 1 := by decide
+/-- the guard's cleanup: Stopping, terminate children, notify, unlink, Stopped — in this order -/
+theorem src_cleanup_order : Extracted.cleanupOrder =
+    ["set_status:Stopping", "terminate", "notify_supervisor", "unlink", "set_status:Stopped"] := by decide
+
 /-! ### Non-vacuity -/
 
 /-- supervisor 0 runs; 1 is spawned under it with a name, joins a group, spawns a child, is
@@ -121,3 +135,7 @@ end C08
 #print axioms C08.failure_causes_fail
 #print axioms C08.refused_link_fails
 #print axioms C08.clash_changes_nothing
+#print axioms C08.src_guard_silent_before_running
+#print axioms C08.src_start_order
+#print axioms C08.src_start_single_await
+#print axioms C08.src_cleanup_order
